@@ -1,4 +1,5 @@
 import Mustache.Model.Worlds
+import Mustache.Proofs.RowsPack
 namespace Mustache.Proofs.WorldsId
 open Mustache.Model
 
@@ -190,76 +191,8 @@ theorem foldl3_wid {α β γ : Type} (f : WM × β × γ → α → WM × β × 
   | nil => rfl
   | cons a l ih => rw [List.foldl_cons, ih, hf]
 
-@[simp] theorem applyPack_wid (w : WM) (pack) : (w.applyPack info pack).1.worldId = w.worldId := by
-  unfold WM.applyPack
-  split
-  · rfl
-  · extract_lets e isCreate w0 start body step
-    have hstep : ∀ acc c, (step acc c).1.worldId = acc.1.worldId := by
-      intro acc c
-      obtain ⟨aw, ap, acbs⟩ := acc
-      simp only [step]
-      split
-      · rfl
-      · split
-        · split
-          · simp
-          · simp
-        · rfl
-        · rfl
-        · split
-          · split <;> rfl
-          · rfl
-        · split <;> rfl
-    generalize hstart : start = st
-    cases st with
-    | none => rfl
-    | some x =>
-      obtain ⟨w1, initial0, sh⟩ := x
-      simp -zeta only []
-      have h1 : w1.worldId = w.worldId := by
-        simp only [start] at hstart
-        split at hstart
-        · cases hstart; simp [w0]
-        · split at hstart
-          · cases hstart
-          · split at hstart
-            · cases hstart
-            · cases hstart; rfl
-      extract_lets initial supplied l moved l' setVal stale
-      have hF : (List.foldl step (w1, { final := initial }, []) body).1.worldId = w1.worldId :=
-        foldl3_wid step body _ hstep
-      have hG : ∀ m s, ((List.foldl step (w1, { final := initial }, []) body).1.getArch m s).1.worldId = w1.worldId := by
-        intro m s; rw [getArch_wid, hF]
-      have hset : ∀ (x : WM) c v, (setVal x c v).worldId = x.worldId := by
-        intro x c v
-        simp only [setVal]
-        split <;> rfl
-      have hmoved : moved.1.worldId = w1.worldId := by
-        simp only [moved]
-        split
-        · rw [archInsert_wid, hG]
-        · split
-          · split
-            · exact hG _ _
-            · split
-              · rename_i r hr
-                rw [externalMove_wid info _ _ _ _ _ _ r hr, hG]
-              · exact hG _ _
-          · exact hG _ _
-      split
-      · exact hF.trans h1
-      · simp -zeta only []
-        rw [foldl_wid, foldl_wid, hmoved, h1]
-        · intro acc c
-          extract_lets cbR
-          split
-          · rfl
-          · exact hset _ _ _
-        · intro acc c
-          split
-          · exact hset _ _ _
-          · rfl
+@[simp] theorem applyPack_wid (w : WM) (pack) : (w.applyPack info pack).1.worldId = w.worldId :=
+  (Mustache.Proofs.Rows.applyPack_ctl info w pack).worldId
 
 @[simp] theorem flush_wid (w : WM) : (w.flush info).1.worldId = w.worldId := by
   unfold WM.flush
